@@ -85,16 +85,16 @@ class RefMachine:
         w = self.w
         meth = w["meths"][m - 1]
         sp = meth["sps"][s - 1]
-        c = self.cache.setdefault((o, m), {"hits": 0, "misses": 0, "store": {}})
+        c = self.cache.setdefault((o, m), {"hits": 0, "misses": 0, "store": {}, "made_by": {}})
         if any(w["atoms"][a - 1]["h"] == 0 for a in sp["pos"] + [e["a"] for e in sp["kw"]]):
             raise _Err("Unhashable")
         k = self.key(m, s)
         b = py_bind(meth["params"], sp)
         if k in c["store"]:
             if top:
-                v = c["store"][k]
                 last["hit"] = "hit"
-                last["twin"] = 1 if (b is not None and v["k"] == "val" and v["b"] != b) else 0
+            if c["made_by"][k] != b:
+                last["twin"] = 1
         else:
             if top:
                 last["hit"] = "miss"
@@ -108,6 +108,7 @@ class RefMachine:
             if kind == "raise":
                 raise _Err("Raise")
             c["store"][k] = {"k": "val", "o": o, "f": m, "b": b} if kind == "val" else {"k": kind, "o": 0, "f": 0, "b": []}
+            c["made_by"][k] = b
             c["misses"] += 1
         c["hits"] += 1
         return c["store"][k]
@@ -1557,12 +1558,12 @@ def sweep_binding(cfg):
     if name == "GridWorld":
         from msdm.domains import GridWorld
         klass = GridWorld
-        make = lambda o: GridWorld(tile_array=["s.g", "..."] if o == 1 else [".s", "g#", ".."], step_cost=-o)
+        make = lambda o: GridWorld(tile_array=["s.g"] if o == 1 else [".s", "g#"], step_cost=-o)
     elif name == "WindyGridWorld":
         from msdm.domains.gridmdp.windygridworld import WindyGridWorld
         from msdm.domains.gridmdp import Location, GridAction
         klass = WindyGridWorld
-        make = lambda o: WindyGridWorld(grid="@.>$\n...." if o == 1 else "$<.\n.@.", wind_probability=0.5 if o == 1 else 0.25)
+        make = lambda o: WindyGridWorld(grid="@>$" if o == 1 else "$<\n.@", wind_probability=0.5 if o == 1 else 0.25)
         meths = [{"name": "next_state_reward_dist",
                   "sps": [((Location(1, 0), GridAction(1, 0)), [], 1), (((1, 0), (1, 0)), [], 1),
                           ((), [("a", GridAction(0, 1)), ("s", Location(0, 0))], 1)]}]
@@ -1607,7 +1608,10 @@ def sweep_binding(cfg):
     for n in dm:
         if n not in [m["name"] for m in meths]:
             meths.append({"name": n, "sps": []})
-    props = [{"name": n, "top": 2 if k < 2 else 1} for k, n in enumerate(dp)]
+    order = list(range(len(dp)))
+    random.Random(cfg.get("pick", 0)).shuffle(order)
+    chosen = set(order[:cfg.get("max_top", 99)])
+    props = [{"name": n, "top": (2 if k in order[:2] else 1) if k in chosen else 0} for k, n in enumerate(dp)]
     return Binding(dict(cfg), [klass, klass], make, meths, props, [1, 2], 2, cfg["L"], False, "")
 
 
@@ -1617,3 +1621,176 @@ def make_binding(desc):
     if desc["kind"] == "mdp":
         return mdp_binding(desc)
     return sweep_binding(desc)
+
+
+# --------------------------------------------------------------------------------------------
+# tiers
+# --------------------------------------------------------------------------------------------
+RULE = ("worlds = real python classes using msdm's method_cache / cached_property: generated toy classes (every spelling "
+        "of a call: positional, keyword, mixed, reordered keywords, explicit defaults, equal arguments of another type, "
+        "unhashable arguments, binding errors; results None / falsy / raising; nested cached calls; 1-3 objects of one class, "
+        "of a subclass, of separately decorated classes; label families int / negative ints with equal hashes / str-vs-int / "
+        "tuples / odd values incl. nan) and msdm's own classes (a TabularMarkovDecisionProcess / QuickTabularMDP / "
+        "TabularPOMDP chain in 4 label families with and without explicit state lists, GridWorld, WindyGridWorld, Tiger, "
+        "TableIndex, domaintuple, ImplicitDistribution, from_matrices). TLC enumerates every sequence of <= L top-level "
+        "operations (call, property read / write / delete, new object); each is replayed on fresh objects and its last "
+        "operation judged. non-trivial = the last operation is a cache hit, an error case, a nested computation, or follows "
+        "an operation on another object or function; plus every accepted random trace of pipeline B")
+
+
+def random_ops(rng, B, n):
+    """a random top-level behaviour (pipeline B): biased towards repeating earlier operations."""
+    ops, nobj = [], B.N0
+    menu_m = [(m, s) for m in range(1, len(B.mcfg) + 1) for s in range(1, len(B.sps[m - 1]) + 1)]
+    menu_p = list(range(1, len(B.pcfg) + 1))
+    while len(ops) < n:
+        r = rng.random()
+        if ops and r < 0.3:
+            op = dict(rng.choice(ops))
+            if op["t"] == "new":
+                continue
+            if rng.random() < 0.4:
+                op["o"] = rng.randint(1, nobj)
+        elif r < 0.36 and nobj < B.NO:
+            nobj += 1
+            op = {"t": "new", "o": nobj, "m": 0, "s": 0}
+        elif menu_m and (r < 0.75 or not menu_p):
+            m, s = rng.choice(menu_m)
+            op = {"t": "call", "o": rng.randint(1, nobj), "m": m, "s": s}
+        elif menu_p:
+            op = {"t": rng.choice(["read", "read", "read", "read", "write", "del"]), "o": rng.randint(1, nobj),
+                  "m": rng.choice(menu_p), "s": 0}
+        else:
+            continue
+        ops.append(op)
+    return ops
+
+
+def build_bindings(rng, tier):
+    thorough = tier == "thorough"
+    out = [toy_binding(c) for c in toy_templates(tier)]
+    for k in range(24 if thorough else 8):
+        for _ in range(20):
+            try:
+                out.append(toy_binding(toy_random(rng, k, L=3)))
+                break
+            except ValueError:
+                continue
+    fams = ["int", "str", "tuple", "mixed"]
+    bases = ["subclass", "quick", "pomdp"]
+    if thorough:
+        combos = [(f, b, e, foc) for f in fams for b in bases for e in (False, True) for foc in ("methods", "props", "spellings")]
+        rng.shuffle(combos)
+        combos = combos[:18]
+    else:
+        r = rng.randrange(12)
+        combos = [(fams[r % 4], bases[r % 3], False, "methods"), (fams[(r + 1) % 4], bases[(r + 1) % 3], True, "props"),
+                  (fams[(r + 2) % 4], bases[(r + 2) % 3], False, "spellings"), (fams[(r + 3) % 4], bases[r % 3], False, "props")]
+    for f, b, e, foc in combos:
+        NO, N0 = {"methods": (2, 2), "props": (2, 1), "spellings": (1, 1)}[foc]
+        L = 3 if (thorough and foc != "props") else 2
+        out.append(mdp_binding({"kind": "mdp", "name": f"chain-{b}-{f}-{'explicit' if e else 'inferred'}-{foc}", "family": f,
+                                "explicit": e, "base": b, "focus": foc, "NO": NO, "N0": N0, "L": L}))
+    for n in ["GridWorld", "WindyGridWorld", "Tiger", "TableIndex", "domaintuple", "ImplicitDistribution", "FromMatrices"]:
+        out.append(sweep_binding({"kind": "sweep", "name": n, "L": 2, "max_top": 99 if thorough else 5,
+                                  "pick": rng.randrange(1 << 30)}))
+    return out
+
+
+def run(ctx):
+    rng = random.Random(ctx.seed * 7919 + 101)
+    ctx.rule = RULE
+    ctx.assumptions = [
+        "TLC evaluates the TLA+ machine correctly (an independent python cache machine must agree with every emitted record; "
+        "python's argument binding oracle is checked against inspect.signature)",
+        "the oracle 'what the undecorated function returns' is obtained by calling the function the decorator wraps "
+        "(__wrapped__) on a twin object built by the same factory",
+        "how often a body runs is observed with sys.setprofile on the code objects of the undecorated functions",
+        "nested decorated calls of msdm's own bodies are learned by probing a fresh object through a tracing subclass; "
+        "what they predict (nested counters) is judged at DRIFT level for msdm's classes and strictly for the toy classes",
+        "arguments that python's == identifies (1, 1.0, True) share one entry: judged against the reference machine at DRIFT level",
+    ]
+    thorough = ctx.tier == "thorough"
+    with warnings.catch_warnings():
+        warnings.simplefilter("ignore")
+        bindings = build_bindings(rng, ctx.tier)
+        chunk = 12
+        for k in range(0, len(bindings), chunk):
+            part = bindings[k:k + chunk]
+            run_mc(ctx, part, f"mc: every sequence of <= L top-level operations over {len(part)} worlds "
+                              f"({', '.join(B.desc['name'] for B in part)})"[:600], workers=None)
+        # attribute-name collisions of the decorators themselves
+        coll = [toy_binding(c) for c in toy_name_collisions()]
+        run_mc(ctx, coll, "mc: function names whose derived attribute names coincide", workers=2)
+        # pipeline B
+        items = []
+        per = 6 if thorough else 1
+        n = 60 if thorough else 30
+        for B in bindings:
+            for _ in range(per):
+                items.append((B, random_ops(rng, B, n)))
+        for k in range(0, len(items), 40):
+            run_traces(ctx, items[k:k + 40], f"trace validation: {len(items[k:k + 40])} recorded behaviours of {n} operations",
+                       workers=None)
+    ctx.extra["worlds"] = len(bindings) + len(coll)
+
+
+def replay(ctx, case):
+    ctx.rule = RULE
+    with warnings.catch_warnings():
+        warnings.simplefilter("ignore")
+        B = make_binding(case["desc"])
+        run_traces(ctx, [(B, case["ops"])], "replay of a stored behaviour", workers=2)
+
+
+def selftest(ctx):
+    """binding demonstration: (1) a value returned by the real code is corrupted, (2) an event is dropped from a
+    recorded trace, (3) the decorators are replaced in-process by broken ones.  Each must be detected."""
+    ctx.rule = RULE
+    T = {c["name"]: c for c in toy_templates("quick")}
+    with warnings.catch_warnings():
+        warnings.simplefilter("ignore")
+        iso = toy_binding(T["isolation-flat"])
+        _, ok = run_mc(ctx, [iso], "selftest baseline", workers=2)
+        base = len(ctx.violations)
+
+        def mutate(op, value):
+            if op["t"] == "call" and op["o"] == 2 and isinstance(value, Res):
+                return Res(1, value.f, value.b)
+            return value
+        run_mc(ctx, [iso], "selftest (1): corrupted returned value", workers=2, mutate=mutate)
+        got1 = any(":isolation:" in v[0] for v in ctx.violations[base:])
+        print(f"  selftest (1) corrupted returned value detected: {got1}")
+        n0 = len(ctx.violations)
+        nest = toy_binding(T["nested"])
+        ops = [{"t": "call", "o": 1, "m": 2, "s": 1}, {"t": "call", "o": 1, "m": 1, "s": 1}, {"t": "read", "o": 1, "m": 2, "s": 0},
+               {"t": "call", "o": 1, "m": 2, "s": 1}, {"t": "read", "o": 1, "m": 1, "s": 0}]
+        _, acc = run_traces(ctx, [(nest, ops)], "selftest baseline trace", workers=2)
+        _, acc2 = run_traces(ctx, [(nest, ops)], "selftest (2): first event dropped", workers=2, drop=0)
+        got2 = acc == 1 and acc2 == 0 and len(ctx.violations) > n0
+        print(f"  selftest (2) dropped event detected: {got2}")
+        n0 = len(ctx.violations)
+        real_mc, real_cp = funcutils.method_cache, funcutils.cached_property
+        try:
+            def bad_method_cache(fn):
+                store = {}
+
+                def wrapped(self, *args, **kwargs):
+                    key = (args, frozenset(kwargs) if kwargs else None)          # keyword VALUES ignored, store shared
+                    if key not in store:
+                        store[key] = fn(self, *args, **kwargs)
+                    return store[key]
+                wrapped.__wrapped__ = fn
+                return wrapped
+
+            def bad_cached_property(fn):
+                return property(fn)                                               # recomputes on every read
+            funcutils.method_cache, funcutils.cached_property = bad_method_cache, bad_cached_property
+            worlds = [toy_binding(T["spellings-int"]), toy_binding(T["isolation-flat"]), toy_binding(T["properties"])]
+            run_mc(ctx, worlds, "selftest (3): broken decorators", workers=2)
+        finally:
+            funcutils.method_cache, funcutils.cached_property = real_mc, real_cp
+        sigs = {v[0] for v in ctx.violations[n0:]}
+        got3 = any(":value:" in s_ or ":isolation:" in s_ for s_ in sigs) and any(":once:" in s_ for s_ in sigs)
+        print(f"  selftest (3) broken decorators detected: {got3} ({len(sigs)} signatures)")
+    return ok > 0 and base == 0 and got1 and got2 and got3
